@@ -133,6 +133,10 @@ func parsePower(s string) uint64 {
 func (w *opsWorld) apply(op string) (r opResult) {
 	parts := strings.Split(op, ":")
 	var panicked string
+	if parts[0] == "touch" {
+		w.touch(w.M) // requests whose answers might be remembered by the server
+		return
+	}
 	if parts[0] == "fail" {
 		// fail:<file>:<open|write> - the next operation's open / write of that file fails (EACCES / ENOSPC)
 		w.Armed = parts[1] + ":" + parts[2]
